@@ -283,7 +283,7 @@ func (l *RangeLoop) earlyExits() []*ssa.BasicBlock {
 		if b == l.Header {
 			continue
 		}
-		for _, s := range b.Succs {
+		for _, s := range staticFeasibleSuccs(b) {
 			if !set[s] && !l.returnsOnly(s) {
 				out = append(out, b)
 				break
@@ -306,7 +306,7 @@ func (l *RangeLoop) returnsOnly(s *ssa.BasicBlock) bool {
 			return true
 		}
 		seen[b] = true
-		for _, x := range b.Succs {
+		for _, x := range staticFeasibleSuccs(b) {
 			if !rec(x) {
 				return false
 			}
